@@ -23,6 +23,7 @@ ATOMS = ["foo", "if", "def", "lambda", "class", "import", "l1", "arg1", "doBreak
          "listpair", "makelist", "none", "not", "is", "in", "yield", "return", "pass", "a_b", "aB9_"]
 QUOTED = ["hello world", "it's", "\"dq\"", "a\nb", "x)", "):", "#c", "__import__('os')", "{0}", "é", "日本", "'; import os; '", "",
           " ", "\t", "\nimport os\n", "%", "a:-b", "[]", "A", "_", "1", "x" * 300,
+          "\ufb01x", "\u210c", "\uff41bc", "x\u00aa", "caf\u00e9", "\u00b5", "\u2160", "\u1e9b\u0323",
           "foo\n", "\nfoo", "foo\r", "foo ", " foo", "9lives", "foo\n\n", "foo\x0b", "foo\x0c", "f\u2028", "foo\x1c", "foo\x85"]
 
 
